@@ -216,10 +216,11 @@ type RunOutput struct {
 }
 
 type ShrinkJob struct {
-	Spec     RunSpec `json:"spec"`
-	Property string  `json:"property"`
-	Kind     string  `json:"kind"`
-	BudgetMs int     `json:"budget_ms"`
+	Spec     RunSpec           `json:"spec"`
+	Property string            `json:"property"`
+	Kind     string            `json:"kind"`
+	Detail   map[string]string `json:"detail,omitempty"`
+	BudgetMs int               `json:"budget_ms"`
 }
 
 type ShrinkResult struct {
@@ -345,7 +346,7 @@ func (f *Finding) matches(prop string, v *Violation) bool {
 	if f.Status != "known" || (f.Kind != v.Kind && f.Kind != "*") {
 		return false
 	}
-	if f.Property != prop && f.Property != v.Property {
+	if f.Property != "*" && f.Property != prop && f.Property != v.Property {
 		return false
 	}
 	for k, want := range f.Match {
@@ -840,7 +841,7 @@ func writeReplay(b *build, id string, r *violRec, shrink bool, tier string) stri
 		if tier == "thorough" {
 			budget = 120000
 		}
-		_, sr, _, _, _ := runJob(b, &Job{Shrink: &ShrinkJob{Spec: spec, Property: r.v.Property, Kind: r.v.Kind, BudgetMs: budget}}, 1, time.Duration(budget)*time.Millisecond+5*time.Minute)
+		_, sr, _, _, _ := runJob(b, &Job{Shrink: &ShrinkJob{Spec: spec, Property: r.v.Property, Kind: r.v.Kind, Detail: r.v.Detail, BudgetMs: budget}}, 1, time.Duration(budget)*time.Millisecond+5*time.Minute)
 		if sr != nil && sr.Out != nil && len(sr.Choices) <= len(o.Choices) {
 			rf.Unshrunk = o.Choices
 			rf.Choices = sr.Choices
@@ -849,7 +850,7 @@ func writeReplay(b *build, id string, r *violRec, shrink bool, tier string) stri
 			rf.History = sr.Out.History
 			rf.SchedLog = sr.Out.SchedLog
 			for _, v := range sr.Out.Violations {
-				if v.Kind == r.v.Kind {
+				if v.Kind == r.v.Kind && violKey(&v) == violKey(&r.v) {
 					rf.Violation = v
 					if v.Property == "*" {
 						rf.Violation.Property = id
